@@ -283,3 +283,65 @@ def walk_objects(fm):
             nxt.extend(r.children)
         stack.extend(reversed(nxt))
     return feats, rels
+
+
+# ---------------------------------------------------------------- observation -> spec
+def unobs_value(v):
+    """Inverse of obs_value, producing the spec encoding (floats as {"$float": repr})."""
+    if v is None:
+        return None
+    (tag, x), = v.items()
+    if tag in ("bool", "int", "str"):
+        return x
+    if tag == "float":
+        return {"$float": x}
+    if tag in ("list", "tuple"):
+        return [unobs_value(i) for i in x]
+    if tag == "map":
+        return {unobs_value(k): unobs_value(val) for k, val in x}
+    raise ValueError(f"cannot rebuild value {v!r}")
+
+
+def unobs_node(n):
+    if "op" in n:
+        if n["r"] is None:
+            return [n["op"], unobs_node(n["l"])]
+        return [n["op"], unobs_node(n["l"]), unobs_node(n["r"])]
+    (tag, x), = n["t"].items()
+    if tag == "int":
+        return ["I", x]
+    if tag == "float":
+        return ["F", x]
+    if tag == "str":
+        return ["S", x] if x.startswith("'") else ["T", x]
+    raise ValueError(f"cannot rebuild node {n!r}")
+
+
+def spec_from_observation(obs: dict) -> dict:
+    """Rebuild a ModelSpec from observe(fm) (well-formed trees with unique names only)."""
+    by = {}
+    for e in obs["features"]:
+        attrs = []
+        for a in e["attrs"]:
+            if a["domain"] is None and a["null"] is None:
+                attrs.append({"name": a["name"], "value": unobs_value(a["default"])})
+            else:
+                dom = a["domain"] or {"ranges": [], "elements": []}
+                attrs.append({"name": a["name"],
+                              "ranges": [[_plain(unobs_value(lo)), _plain(unobs_value(hi))] for lo, hi in dom["ranges"]],
+                              "elements": [_plain(unobs_value(x)) for x in dom["elements"]],
+                              "default": _plain(unobs_value(a["default"])), "null": _plain(unobs_value(a["null"]))})
+        ab = e["abstract"]
+        by[e["name"]] = {"name": e["name"], "abstract": ab.get("bool", False) if isinstance(ab, dict) else False,
+                         "ftype": e["ftype"], "fcard": None if e["fcard"] == [1, 1] else list(e["fcard"]),
+                         "attrs": attrs, "rels": []}
+    for e in obs["features"]:
+        for r in e["rels"]:
+            by[e["name"]]["rels"].append({"min": r["min"], "max": r["max"],
+                                          "children": [by[c] for c in r["children"]]})
+    return {"root": by[obs["root"]], "ctcs": [{"name": c["name"], "ast": unobs_node(c["ast"])} for c in obs["ctcs"]]}
+
+
+def _plain(v):
+    """AFM-style attribute fields are kept as plain Python values (floats thawed)."""
+    return _thaw(v)
